@@ -132,7 +132,8 @@ def _attempt(build, records, what, stats):
         # the Record model; the generators of these sub-checks never produce one
         raise Violation(f"{what}: the Record model refused a record that does not list its own canonical values as synonyms: {str(e)[:300]}") from e
     except (curies.DuplicateURIPrefixes, curies.DuplicatePrefixes) as e:
-        kind = type(e).__name__
+        # the documented classes are what counts - a more specific subclass is still a DuplicateURIPrefixes / DuplicatePrefixes
+        kind = "DuplicateURIPrefixes" if isinstance(e, curies.DuplicateURIPrefixes) else "DuplicatePrefixes"
         if exp == "ok":
             raise Violation(f"{what}: raised {kind} on a clash-free collection") from e
         if kind != exp:
